@@ -14,7 +14,7 @@ Theorem C11_entities_unique_sorted :
     Forall (fun c => StronglySorted le c) (entities true cells indices) /\
     (forall c, In c (entities true cells indices) <->
                exists s e, s < length indices /\ e < length cells /\
-                           c = isort (slotv (nth s indices []) (nth e cells []))).
+                           c = sort_entity (slotv (nth s indices []) (nth e cells []))).
 Proof.
   intros cells indices. destruct (entities_unique_sorted cells indices) as [H1 [H2 H3]].
   repeat split; try assumption; apply (in_entities cells indices).
@@ -26,7 +26,7 @@ Theorem C11_t2f_slotwise :
   forall (cells indices : list (list nat)) (s e : nat), s < length indices -> e < length cells ->
     nth e (nth s (mapping cells indices) []) 0 < length (entities true cells indices) /\
     nth (nth e (nth s (mapping cells indices) []) 0) (entities true cells indices) []
-    = isort (slotv (nth s indices []) (nth e cells [])).
+    = sort_entity (slotv (nth s indices []) (nth e cells [])).
 Proof. intros cells indices s e Hs He. split; [exact (t2f_bound cells indices s e Hs He) | exact (t2f_slotwise cells indices s e Hs He)]. Qed.
 Print Assumptions C11_t2f_slotwise.
 
@@ -49,7 +49,7 @@ Theorem C11_t2f_equal_iff_same_vertices :
   forall (cells indices : list (list nat)) (s e s' e' : nat),
     s < length indices -> e < length cells -> s' < length indices -> e' < length cells ->
     (nth e (nth s (mapping cells indices) []) 0 = nth e' (nth s' (mapping cells indices) []) 0 <->
-     isort (slotv (nth s indices []) (nth e cells [])) = isort (slotv (nth s' indices []) (nth e' cells []))).
+     sort_entity (slotv (nth s indices []) (nth e cells [])) = sort_entity (slotv (nth s' indices []) (nth e' cells []))).
 Proof. exact t2f_eq_iff. Qed.
 Print Assumptions C11_t2f_equal_iff_same_vertices.
 
@@ -57,7 +57,7 @@ Print Assumptions C11_t2f_equal_iff_same_vertices.
 Theorem C11_unsorted_facets :
   forall (cells indices : list (list nat)) (j : nat), j < length (entities true cells indices) ->
     length (entities false cells indices) = length (entities true cells indices) /\
-    isort (nth j (entities false cells indices) []) = nth j (entities true cells indices) [] /\
+    sort_entity (nth j (entities false cells indices) []) = nth j (entities true cells indices) [] /\
     exists s e, s < length indices /\ e < length cells /\ t2f_at cells indices s e = j /\
       nth j (entities false cells indices) [] = slotv (nth s indices []) (nth e cells []) /\
       forall s' e', s' < length indices -> e' < length cells ->
@@ -163,7 +163,7 @@ Print Assumptions C11_boundary_interior_edges_partition.
 Theorem C11_f2e_slotwise :
   forall (facets bnd_idx cells edge_idx : list (list nat)) (s f : nat), s < length bnd_idx -> f < length facets ->
     nth (nth f (nth s (mapping facets bnd_idx) []) 0) (entities true facets bnd_idx) []
-      = isort (slotv (nth s bnd_idx []) (nth f facets [])) /\
+      = sort_entity (slotv (nth s bnd_idx []) (nth f facets [])) /\
     ((forall c, In c (keys facets bnd_idx) <-> In c (keys cells edge_idx)) ->
      entities true facets bnd_idx = entities true cells edge_idx).
 Proof.
@@ -173,23 +173,53 @@ Proof.
 Qed.
 Print Assumptions C11_f2e_slotwise.
 
-(* ... and for tetrahedral meshes (tables regenerated from refdom.py) it always is: for EVERY cell list, f2e[s][f] is the number
-   IN mesh.edges of the s-th side of facet f.  (For hexahedra the same needs the two cells of a facet to list its vertices in the
-   same cyclic order — a geometric conformity assumption; there f2e is corresponded and checked by the oracle.) *)
+(* ... and for tetrahedral meshes (tables regenerated from refdom.py) it always is: for EVERY list of cells with pairwise distinct
+   vertices, f2e[s][f] is the number IN mesh.edges of the s-th side of facet f.  (For hexahedra the same needs the two cells of a
+   facet to list its vertices in the same cyclic order — a geometric conformity assumption; there f2e is corresponded and
+   checked by the oracle.) *)
 Theorem C11_f2e_numbers_mesh_edges_tet :
   forall (cells : list (list nat)) (s f : nat),
+    Forall (fun c => NoDup c /\ length c = tet_nnodes) cells ->
     let facets := entities tet_sortf cells tet_facets in
     entities true facets tet_bnd = entities true cells tet_edges /\
     (s < length tet_bnd -> f < length facets ->
      nth (nth f (nth s (mapping facets tet_bnd) []) 0) (entities true cells tet_edges) []
-       = isort (slotv (nth s tet_bnd []) (nth f facets []))).
+       = sort_entity (slotv (nth s tet_bnd []) (nth f facets []))).
 Proof.
-  intros cells s f facets. unfold facets. rewrite tet_sorted_facets.
+  intros cells s f Hc facets. unfold facets. rewrite tet_sorted_facets.
   assert (E : entities true (entities true cells tet_facets) tet_bnd = entities true cells tet_edges).
-  { apply f2e_numbers_mesh_edges; [exact tet_bnd_all_pairs | exact tet_facets_have_three_vertices | exact tet_compose_ok]. }
+  { apply (f2e_numbers_mesh_edges cells tet_facets tet_edges tet_bnd tet_nnodes);
+      [exact tet_bnd_all_pairs | exact tet_facets_have_three_vertices | exact tet_edges_distinct_vertices
+      | exact tet_compose_ok | exact Hc]. }
   split; [exact E|]. intros Hs Hf. rewrite <- E. now apply t2f_slotwise.
 Qed.
 Print Assumptions C11_f2e_numbers_mesh_edges_tet.
+
+(* entity keys (Mesh._sort_entities): plain sorting for slot tuples without repeated vertices (every slot of every cell type on
+   cells with distinct vertices, except the padded triangles of wedges); the key of a padded triangle depends only on its vertex
+   SET, so two wedges sharing a triangle share the facet whatever their local vertex order *)
+Theorem C11_entity_key_independent_of_local_order :
+  (forall l, NoDup l -> sort_entity l = isort l) /\
+  (forall l x, In x (sort_entity l) <-> In x l) /\
+  (forall l, StronglySorted le (sort_entity l)) /\
+  (forall l1 l2 x1 x2, NoDup l1 -> NoDup l2 -> In x1 l1 -> In x2 l2 -> (forall v, In v l1 <-> In v l2) ->
+     sort_entity (l1 ++ [x1]) = sort_entity (l2 ++ [x2])) /\
+  (forall c1 c2 : list nat, NoDup c1 -> NoDup c2 -> length c1 = wedge_nnodes -> length c2 = wedge_nnodes ->
+     forall s1 s2, (s1 = 3 \/ s1 = 4) -> (s2 = 3 \/ s2 = 4) ->
+     (forall v, In v (slotv (nth s1 wedge_facets []) c1) <-> In v (slotv (nth s2 wedge_facets []) c2)) ->
+     sort_entity (slotv (nth s1 wedge_facets []) c1) = sort_entity (slotv (nth s2 wedge_facets []) c2)).
+Proof.
+  split; [exact sort_entity_nodup|]. split; [exact sort_entity_in|]. split; [exact sort_entity_sorted|].
+  split; [exact padded_key_depends_on_vertex_set|].
+  intros c1 c2 N1 N2 L1 L2 s1 s2 H1 H2. destruct wedge_triangular_slots_are_padded as [P3 P4].
+  assert (B : forall c : list nat, length c = wedge_nnodes -> (forall i, In i [0; 1; 2] -> i < length c) /\ (forall i, In i [3; 4; 5] -> i < length c)).
+  { intros c L. rewrite L. unfold wedge_nnodes. split; intros i Hi; simpl in Hi; intuition (subst; repeat constructor). }
+  assert (D : NoDup [0; 1; 2] /\ NoDup [3; 4; 5]) by (split; repeat constructor; simpl; intuition discriminate).
+  destruct (B c1 L1) as [B13 B14]. destruct (B c2 L2) as [B23 B24]. destruct D as [D3 D4].
+  destruct H1 as [-> | ->]; destruct H2 as [-> | ->]; rewrite ?P3, ?P4; intros Hs;
+    apply padded_slot_key_vertex_set; try assumption; simpl; tauto.
+Qed.
+Print Assumptions C11_entity_key_independent_of_local_order.
 
 (* ---- non-vacuity: two triangles sharing the edge {1,2}, one renumbered quadrilateral pair, a tetrahedron *)
 Example C11_two_triangles :
